@@ -236,3 +236,7 @@ impl Z80 {
         bus.pc_callback(self.regs.get_pc());
     }
 }
+
+#[cfg(kani)]
+#[path = "/verif/hooks/z80/cpu.rs"]
+mod verif_hooks;
